@@ -76,7 +76,7 @@ def exact_offset_tree(rng, offset):
 
     def shift(n):
         if "t" in n:
-            return {"t": f2b(float(round(b2f(n["t"]))) + offset)}
+            return {"t": f2b(float(round(b2f(n["t"]) / 4.0)) + offset)}     # gains of one or two units
         if "o" in n:
             return {"c": n["c"], "o": [[w, shift(c)] for w, c in n["o"]]}
         return {"p": n["p"], "i": n["i"], "a": [[a, shift(c)] for a, c in n["a"]]}
@@ -149,8 +149,8 @@ def generate(rng, tier, n):
     # exact arithmetic: integer payoffs around a large common offset, pure profiles, at most one fair coin at the root:
     # every intermediate of every correct evaluation order is exactly representable, so the reported numbers must be
     # exactly the rational ones (no tolerance): a regret of 1 next to utilities of 2^48 is not rounding noise
-    for k in range(max(6, n // 40)):
-        t, st = exact_offset_tree(rng, rng.choice([2.0 ** 48, -2.0 ** 48, 2.0 ** 45, 2.0 ** 50, 0.0]))
+    for k in range(max(10, n // 25)):
+        t, st = exact_offset_tree(rng, [2.0 ** 50, -2.0 ** 50, 2.0 ** 51, -2.0 ** 51, 2.0 ** 48, 0.0][k % 6])
         cases.append(build(cid, t, st, named=random_named(rng, t, "pure", scale=False), second=None))
         cases[-1].meta["exact"] = True
         cid += 1
